@@ -117,5 +117,7 @@ namespace vf
 #ifdef VERIF_ASAN
 extern "C" __attribute__((used, weak)) void __asan_on_error() { vf::asan_flag() = 1; }
 #endif
+// UBSan calls this for every report (before dying in abort mode, before continuing in recover mode)
+extern "C" __attribute__((used, weak)) void __ubsan_on_report(void) { vf::asan_flag() = 1; }
 
 #endif
